@@ -883,6 +883,72 @@ func (t *tlFunc) variadicParam(v ssa.Value) int {
 	return -1
 }
 
+// carriedWithIndex: the store writes a loop-carried container back into a loop-carried slot index, and the
+// two are only ever replaced together: `idx, c = f(i)` on one branch, `c = c.op(); set(idx, c)` on the other
+// (AddMany). Then the container met again in a later iteration still sits in slot idx and nowhere else.
+func (t *tlFunc) carriedWithIndex(h *ssa.BasicBlock, s *storeSite) bool {
+	hIdx, ok := s.idx.(*ssa.Phi)
+	if !ok || hIdx.Block() != h {
+		return false
+	}
+	// header phis of container type whose back-edge values are phis in the same join block as the index's
+	for i, pr := range h.Preds {
+		if !h.Dominates(pr) {
+			continue
+		}
+		jIdx, ok := hIdx.Edges[i].(*ssa.Phi)
+		if !ok {
+			if hIdx.Edges[i] == ssa.Value(hIdx) {
+				continue // index unchanged on this back edge
+			}
+			return false
+		}
+		for _, ins := range h.Instrs {
+			hc, isPhi := ins.(*ssa.Phi)
+			if !isPhi || hc == hIdx || !t.e.lv.isSlotType(hc.Type()) {
+				continue
+			}
+			jc, ok := hc.Edges[i].(*ssa.Phi)
+			if !ok || jc.Block() != jIdx.Block() {
+				return false
+			}
+			for k := range jIdx.Edges {
+				if jIdx.Edges[k] == ssa.Value(hIdx) {
+					continue // index unchanged: the carried container still belongs to that slot
+				}
+				for _, a := range t.provOf(jc.Edges[k]) {
+					if a.k == aFresh && strings.HasPrefix(a.why, "carried:") {
+						return false // the index changes while the old container is kept
+					}
+				}
+			}
+		}
+	}
+	return true
+}
+
+// noteMove: containers leave table tab with their flags (which may be false): that is a move, sound only
+// if tab is a temporary that nobody reads afterwards. A parameter-rooted source passes the obligation to
+// the callers; an exported function moving out of its own parameter is a violation.
+func (t *tlFunc) noteMove(tab string, bad *[]string) string {
+	pi, _, ok := rootParam(tab)
+	if !ok {
+		return ""
+	}
+	if isExportedAPI(t.fn) {
+		*bad = append(*bad, fmt.Sprintf("containers are moved out of %s, a table that belongs to the caller and stays in use: both tables then hold them with the source's (possibly false) flag", tab))
+		return ""
+	}
+	for _, m := range t.sum.moves {
+		if m == pi {
+			return "; the source must be a temporary: obligation moves to the callers"
+		}
+	}
+	t.sum.moves = append(t.sum.moves, pi)
+	sort.Ints(t.sum.moves)
+	return "; the source must be a temporary: obligation moves to the callers"
+}
+
 // apiStore: a call to a function whose summary says it stores one of its parameters into a slot.
 func (t *tlFunc) apiStore(ins ssa.Instruction, c *ssa.CallCommon, mk func(string) string) {
 	f := t.calleeOf(c)
@@ -891,6 +957,29 @@ func (t *tlFunc) apiStore(ins ssa.Instruction, c *ssa.CallCommon, mk func(string
 	}
 	args := c.Args
 	s := t.e.summary(f, boolCtxArgs(t, f, args))
+	for _, k := range s.moves {
+		if k >= len(args) {
+			continue
+		}
+		src := t.root(args[k])
+		site := &tlSite{rule: "A3", fn: t.fn, ctx: t.ctxS, instr: ins, what: mk("move out of table via " + fname(f))}
+		if isLocalRoot(src) || strings.HasPrefix(src, "C:") {
+			site.status, site.note = "ok", "source "+src+" is a temporary of this function: it is consumed"
+			t.e.addSite(site)
+			continue
+		}
+		var bad []string
+		note := t.noteMove(src, &bad)
+		if _, _, isParam := rootParam(src); !isParam {
+			bad = append(bad, fmt.Sprintf("containers are moved out of %s with their own (possibly false) flags, and nothing shows that table is a temporary", src))
+		}
+		if len(bad) > 0 {
+			site.status, site.note = "violation", strings.Join(bad, "; ")
+		} else {
+			site.status, site.note = "ok", "source "+src+note
+		}
+		t.e.addSite(site)
+	}
 	for _, rq := range s.reqs {
 		if rq.tabParam >= len(args) || rq.valParam >= len(args) {
 			continue
@@ -1010,6 +1099,20 @@ func (t *tlFunc) judgeStore(s *storeSite) {
 	var bad, notes []string
 	for _, a := range s.atoms {
 		site.atoms = append(site.atoms, a.String())
+		if a.k == aFresh && strings.HasPrefix(a.why, "carried:") {
+			// a container built once and kept in a variable across iterations: storing it inside that loop puts
+			// the same object into several slots
+			var hdr int
+			fmt.Sscanf(a.why, "carried:%d", &hdr)
+			if hdr < len(t.fn.Blocks) {
+				h := t.fn.Blocks[hdr]
+				sb := s.ins.Block()
+				if h.Dominates(sb) && blockReaches(sb, h) && !t.carriedWithIndex(h, s) {
+					bad = append(bad, "the stored container was created in an earlier iteration of the enclosing loop and may already sit in another slot: every slot needs its own container (or both flags set)")
+					continue
+				}
+			}
+		}
 		if t.atomOwned(a, facts) {
 			continue
 		}
@@ -1039,14 +1142,14 @@ func (t *tlFunc) judgeStore(s *storeSite) {
 			// another table's container
 			switch {
 			case s.flagKind == "paired:"+a.tab:
-				notes = append(notes, "transferred from "+a.tab+" together with its flag (bulk)")
+				notes = append(notes, "transferred from "+a.tab+" together with its flag (bulk)"+t.noteMove(a.tab, &bad))
 			case s.flagKind == "markall:"+a.tab:
 				notes = append(notes, "shared with "+a.tab+"; every flag of both tables is set afterwards")
 			case s.flagKind == "value" && func() bool {
 				ft, fi, isLoad := t.flagLoad(s.flagVal)
 				return isLoad && ft == a.tab && fi == a.idx && fi != nil
 			}():
-				notes = append(notes, "transferred from "+a.tab+" together with its flag")
+				notes = append(notes, "transferred from "+a.tab+" together with its flag"+t.noteMove(a.tab, &bad))
 			case t.flagTrueAt(s) && t.ensured(a.tab, a.idx, s.ins):
 				notes = append(notes, "shared with "+a.tab+": destination flag true, source flag ensured true")
 			case t.flagTrueAt(s):
